@@ -585,6 +585,66 @@ Proof.
   cbn [exec_cy]. apply (IH _ _ S2 S3 Hcv Hl2 Hnd).
 Qed.
 
+
+(* the cache-independent part of the invariant holds along every history, in both builds *)
+Lemma inv_false w : Base w -> Inv false w.
+Proof. intros B. split; [assumption|discriminate]. Qed.
+
+Lemma slow_path_base cached w k oi o o1 : Base w -> nth_error (w_objs w) oi = Some o1 ->
+  Base (fst (slow_path cached h w k oi o)).
+Proof.
+  intros B Ho. unfold slow_path.
+  destruct (lookup h (cd_w w) (os_cls o) (inst_m o)) as [k'| | |]; cbn [fst]; auto.
+  destruct (Nat.eqb k' k); cbn [fst]; auto. destruct cached; cbn [fst]; auto.
+  destruct (read_obj_ver_spec false w oi o1 (inv_false w B) Ho) as (o2 & _ & _ & _ & [B1 _] & _).
+  destruct (read_obj_ver h w oi) as [w1 ov]. cbn [fst] in *. apply base_set_cache. assumption.
+Qed.
+
+Lemma cbody_base cached w k skip oi o : Base w -> nth_error (w_objs w) oi = Some o ->
+  Base (fst (cbody cached h w k skip oi o)).
+Proof.
+  intros B Ho. unfold cbody. destruct skip; cbn [fst]; auto.
+  destruct (cdecl_dict (getc h k) || prefilter h (os_cls o)); cbn [fst]; auto.
+  destruct cached; [|eapply slow_path_base; eassumption].
+  destruct (fst (cache_find (w_cache w) k) =? tp_ver w (os_cls o)); [|eapply slow_path_base; eassumption].
+  destruct (read_obj_ver_spec false w oi o (inv_false w B) Ho) as (o2 & Ho2 & _ & _ & [B1 _] & _).
+  destruct (read_obj_ver h w oi) as [w1 v]. cbn [fst] in *.
+  destruct (snd (cache_find (w_cache w) k) =? v); cbn [fst]; [assumption|].
+  eapply slow_path_base; eassumption.
+Qed.
+
+Lemma step_base cached w o : Base w -> Base (fst (step_cy cached false h w o)).
+Proof.
+  intros B. destruct o as [c v|c|c|oi n|oi|oi|oi|c oi]; cbn [step_cy fst].
+  - destruct (validc h c && is_py (getc h c)) eqn:E; [|assumption].
+    apply andb_true_iff in E as [Ev Ep]. unfold validc in Ev. apply Nat.ltb_lt in Ev. apply base_set_class; assumption.
+  - destruct (validc h c && is_py (getc h c)) eqn:E; [|assumption].
+    apply andb_true_iff in E as [Ev Ep]. unfold validc in Ev. apply Nat.ltb_lt in Ev.
+    destruct (cd_w w c); [apply base_set_class|]; assumption.
+  - destruct (validc h c) eqn:Ev; [|assumption]. unfold validc in Ev. apply Nat.ltb_lt in Ev.
+    destruct (cdictk (getc h c)) eqn:Ek; apply base_new; auto; try congruence.
+    intros _; unfold has_dict; now rewrite Ek.
+  - destruct (nth_error (w_objs w) oi) as [o|] eqn:Eo; [|assumption].
+    destruct (has_dict h (os_cls o)) eqn:Ehd; [|assumption]. apply base_set_obj; assumption.
+  - destruct (nth_error (w_objs w) oi) as [o|] eqn:Eo; [|assumption].
+    destruct (os_dict o) as [[[n|] v]|] eqn:Ed; try assumption.
+    apply base_set_obj; try assumption.
+    destruct (has_dict h (os_cls o)) eqn:E; [reflexivity|]. rewrite (b_nodict _ B _ _ Eo E) in Ed. discriminate.
+  - destruct (nth_error (w_objs w) oi) as [o|] eqn:Eo; cbn [fst]; [|assumption].
+    destruct (lookup h (cd_w w) (os_cls o) (inst_m o)); cbn [cbody fst]; assumption.
+  - destruct (nth_error (w_objs w) oi) as [o|] eqn:Eo; cbn [fst]; [|assumption].
+    unfold dispatch_cy. destruct (vslot h (os_cls o)) as [k|]; cbn [fst]; [|assumption].
+    pose proof (cbody_base cached w k false oi o B Eo) as H.
+    destruct (cbody cached h w k false oi o) as [w1 r]. exact H.
+  - destruct (nth_error (w_objs w) oi) as [o|] eqn:Eo; cbn [fst]; [|assumption].
+    destruct (validc h c); cbn [fst]; [|assumption].
+    destruct (type_lookup h (cd_w w) c) as [[n|k]|]; cbn [fst]; try assumption.
+    destruct (in_mro h k (os_cls o)); cbn [cbody fst]; assumption.
+Qed.
+
+Lemma exec_base cached : forall ops w, Base w -> Base (exec_cy cached false h w ops).
+Proof. induction ops as [|o ops IH]; intros w B; [assumption|]. cbn [exec_cy]. apply IH, step_base, B. Qed.
+
 Lemma rel_w0 : Rel (w0 h) (p0 h).
 Proof. split; reflexivity. Qed.
 
@@ -596,7 +656,7 @@ Theorem dispatch_eq_nocache h ops : wf_hier h = true -> no_ext_def h = true ->
   run_cy false false h (w0 h) ops = run_py h (p0 h) ops.
 Proof.
   intros Hwf Hnd. apply (run_sim h Hwf false false); auto; try discriminate.
-  - split; [apply base_w0|discriminate].
+  - split; [apply base_w0; assumption|discriminate].
   - apply rel_w0.
 Qed.
 
@@ -606,7 +666,7 @@ Theorem dispatch_eq_cached_leaf h ops : wf_hier h = true -> no_ext_def h = true 
   run_cy true false h (w0 h) ops = run_py h (p0 h) ops.
 Proof.
   intros Hwf Hnd Hl. apply (run_sim h Hwf true true); auto.
-  - split; [apply base_w0|intros _; apply cache_w0; assumption].
+  - split; [apply base_w0; assumption|intros _; apply cache_w0; assumption].
   - apply rel_w0.
 Qed.
 
@@ -622,13 +682,6 @@ Theorem prefilter_sound h cached ops oi o k : wf_hier h = true -> no_ext_def h =
   lookup h (cd_w (exec_cy cached false h (w0 h) ops)) (os_cls o) (inst_m o) = TWrap k.
 Proof.
   intros Hwf Hnd Ho Hp Hv.
-  assert (I : Inv h false (exec_cy cached false h (w0 h) ops)).
-  { destruct cached.
-    - (* the Base part does not depend on the cache: run with the cache invariant switched off is
-         not available for cached = true, so show Base directly through the leaf-free argument *)
-      admit_placeholder.
-    - apply (exec_inv h Hwf false false ops (w0 h) (p0 h)); auto; try discriminate.
-      + split; [apply base_w0|discriminate].
-      + apply rel_w0. }
-  destruct I as [B _]. apply (prefilter_sound_w h Hwf _ oi o k B Hnd Ho Hp Hv).
+  assert (B : Base h (exec_cy cached false h (w0 h) ops)) by (apply exec_base; [assumption|apply base_w0; assumption]).
+  apply (prefilter_sound_w h Hwf _ oi o k B Hnd Ho Hp Hv).
 Qed.
